@@ -193,7 +193,7 @@ package net
 // handler that is live when the table is locked is consulted (no early exit from the slot loop).
 //@ ghostfield dvisited int counter
 //@ func (e *endPoint) dispatch(msg *Message) (err error)
-//@   tags C17 C10 C12
+//@   tags C17 C10 C12 C04
 //@   requires !e.handlersMutex.lockw && msg != nil && e.stream != nil
 //@   modifies everything, e.dvisited
 //@   ensures !e.handlersMutex.lockw
@@ -201,6 +201,9 @@ package net
 //@   call Lock#1: ghost e.dvisited := -1
 //@   call dyn#1: assert[C10] e.dvisited < i
 //@   call dyn#1: ghost e.dvisited := i
+// what is offered is the message being dispatched, to the queue of the handler whose filter selected
+// it (C04: a reply reaches the caller whose filter matched it, and nobody else's queue)
+//@   call select#1: assert[C10,C04] matched && arg1 == msg && arg0 == h.consumer && h == at_lock(e.handlers[i])
 //@   ensures[C17] at_unlock(len(e.handlers)) == at_lock(len(e.handlers))
 //@   ensures[C17] forall i int {at_unlock(e.handlers[i])} :: 0 <= i && i < at_lock(len(e.handlers)) ==> at_unlock(e.handlers[i]) == at_lock(e.handlers[i]) || (at_unlock(e.handlers[i]) == nil && at_lock(e.handlers[i]) != nil && at_lock(e.handlers[i]).hclosed == 1 && at_lock(e.handlers[i]).consumer.chclosed)
 //@   loop 1:
